@@ -1265,7 +1265,26 @@ def rule_fresh_per_parse(ctx: Ctx, rid="C17.FRESH-PER-PARSE", kinds=("Lexer", "P
             for d in getattr(fn, "decorator_list", []):
                 dn = dotted(d.func) if isinstance(d, ast.Call) else dotted(d)
                 if dn in CACHE_DECORATORS:
-                    escaped = f"created inside a @{dn} function: the object is kept and shared"
+                    # the cache keeps what the function returns: the object is shared when it can be (part of) that value, i.e. when
+                    # it, or the local it is bound to, occurs in a return expression other than as the receiver of a method call
+                    local_names = {t.id for t in par.targets if isinstance(t, ast.Name)} if isinstance(par, ast.Assign) else set()
+                    if isinstance(par, ast.NamedExpr) and isinstance(par.target, ast.Name):
+                        local_names.add(par.target.id)
+
+                    def _carried(e, top=True):
+                        if e is node:
+                            return True
+                        if isinstance(e, ast.Name):
+                            return e.id in local_names
+                        if isinstance(e, ast.Call) and isinstance(e.func, ast.Attribute):
+                            # receiver.method(args): the receiver is used, not handed on
+                            return any(_carried(a_, False) for a_ in list(e.args) + [k_.value for k_ in e.keywords])
+                        return any(_carried(ch_, False) for ch_ in ast.iter_child_nodes(e))
+                    rets = [x.value for x in walk_no_nested(fn) if isinstance(x, (ast.Return, ast.Yield, ast.YieldFrom)) and x.value is not None]
+                    if isinstance(fn, ast.Lambda):
+                        rets = [fn.body]
+                    if any(_carried(rv) for rv in rets):
+                        escaped = f"created inside a @{dn} function and part of what it returns: the object is kept and shared"
             if escaped:
                 ctx.rep.bad(rid, con, f"a {cname} object escapes its call: {escaped}", site=m.site(node), text=f"{cname}() {escaped}")
             else:
@@ -1683,6 +1702,14 @@ def rule_instance_only(ctx: Ctx, rid="C11.INSTANCE-ONLY"):
                 muts = _class_attr_mutations(ctx, m, c.name, names[0])
                 if not muts:
                     imm, why = True, "class-level container is never changed in place (read-only table)"
+            if not imm and isinstance(v, ast.Name):
+                # a module-level constant used as the class-level default: judge the value it names
+                for st2 in m.tree.body:
+                    if isinstance(st2, (ast.Assign, ast.AnnAssign)) and getattr(st2, "value", None) is not None and any(
+                            isinstance(t, ast.Name) and t.id == v.id for t in (st2.targets if isinstance(st2, ast.Assign) else [st2.target])):
+                        v = st2.value
+                if isinstance(v, ast.Constant):
+                    imm, why = True, "class-level default names a module-level immutable constant"
             if not imm and isinstance(v, ast.Call) and dotted(v.func):
                 m2_, cnode = ctx.src.resolve_name(m, dotted(v.func).split(".")[0])
                 if isinstance(cnode, ast.ClassDef):
